@@ -233,6 +233,7 @@ func cmdC12Script(seed uint64, n int, dir string) {
 	}
 	c12MethodGrowth(st, r)
 	c12NilFields(st, r, 6)
+	c12SharedMethodNames(st, r, 40+n/4)
 	st.write(dir + "/C12_script_stats.json")
 }
 
